@@ -16,13 +16,11 @@ the atom type `σ` (field names and keyword values); `fold : σ → σ` is case 
   filtered; `Or`/`Not` as written.  A `null` element of a nested array counts as an object
   without properties (it is counted and indexed like one by the code, see `Core/Doc`).
 * `flatten` — what `collect_document`/`collect_nested`/`collect_nested_object`/`record_nested_*`
-  (`index/segment.rs`) leave in the fast-field columns of one document, organised by the schema
-  tree instead of by dotted path strings (the two are in bijection): per nested path the object
-  count (`nested_counts.insert` — the **last** invocation wins), the parent indices
-  (`nested_parents`: first `len` slots overwritten per invocation), and per fast leaf the value
-  lists by object index (`record_nested_*`: values of equal object indices are appended, whatever
-  parent they come from).  An *invocation* is one call of `collect_nested` for that path: its
-  parent object index and the (non-null) value it was called with.
+  (`index/segment.rs`, after the repair a2fc693) leave in the fast-field columns of one document,
+  organised by the schema tree instead of by dotted path strings (the two are in bijection): the
+  objects of a nested path are numbered across all parent objects in collection order; per path
+  the total object count, the parent index of every object, and per fast leaf the value list of
+  every object index.  The columns as they were before the repair are in `Core/FilterLegacy`.
 * `Col.eval` — `passes_filters_at` / `nested_group_passes` / `nested_filter_passes` /
   `filter_matches` (`query/filters.rs`) over those columns, with `object_idx : Option Nat`.
 
@@ -191,70 +189,45 @@ def NEntries.find [DecidableEq σ] : NEntries σ → σ → Option (NEntry σ)
   | .nil, _ => none
   | .cons k e t, x => if k = x then some e else t.find x
 
-/-- one call of `collect_nested`: parent object index, value -/
-abbrev Inv (σ : Type) := Option Nat × J σ
+/-- one object of a nested path with the index of its parent object (in the numbering of the
+parent path) -/
+abbrev PObj (σ : Type) := Option Nat × JO σ
 
-/-- the calls of `collect_nested` for child `r` made while the objects `os` (indices from `b`)
-are collected: one per object that has a non-null `r` -/
-def carriersFrom [DecidableEq σ] (r : σ) : Nat → List (JO σ) → List (Inv σ)
+/-- the objects of child path `r`, in the order `collect_nested` meets them: for every object of
+the parent path (indices from `i`), the objects of its value under `r` (none for a missing, null
+or scalar value).  Their position in this list is their object index: since a2fc693 the objects of
+a child path are numbered across all parents (`base = nested_counts[prefix]`,
+`nested_counts[prefix] = base + n`, `nested_parents[prefix][base..base+n] = parent`). -/
+def childObjsFrom [DecidableEq σ] (r : σ) : Nat → List (PObj σ) → List (PObj σ)
   | _, [] => []
-  | i, o :: t =>
-    (match o.get r with
-     | some v => if v.isNull then [] else [(some i, v)]
-     | none => []) ++ carriersFrom r (i + 1) t
+  | i, po :: t =>
+    (match po.2.get r with
+     | some v => (objsOf v).map (fun o => (some i, o))
+     | none => []) ++ childObjsFrom r (i + 1) t
 
-def childInvs [DecidableEq σ] (r : σ) (invs : List (Inv σ)) : List (Inv σ) :=
-  invs.flatMap (fun inv => carriersFrom r 0 (objsOf inv.2))
-
-/-- `nested_counts.insert(prefix, len)`: the last call wins -/
-def lastCount (invs : List (Inv σ)) : Nat :=
-  match invs.getLast? with
-  | some inv => (objsOf inv.2).length
-  | none => 0
-
-def maxCount (invs : List (Inv σ)) : Nat :=
-  invs.foldl (fun m inv => max m (objsOf inv.2).length) 0
-
-/-- the `nested_parents` entry after one more call -/
-def parentsStep (acc : Option (List (Option Nat))) (inv : Inv σ) : Option (List (Option Nat)) :=
-  match inv.2 with
-  | .arr a =>
-    let len := a.toList.length
-    match inv.1 with
-    | some p =>
-      let e := acc.getD (List.replicate len none)
-      let e := e ++ List.replicate (len - e.length) none
-      some (List.replicate len (some p) ++ e.drop len)
-    | none => some (acc.getD (List.replicate len none))
-  | .obj _ => some (acc.getD [inv.1])
-  | _ => acc
-
-def parentsOf (invs : List (Inv σ)) : List (Option Nat) :=
-  (invs.foldl parentsStep none).getD []
-
-/-- `record_nested_*`: the values recorded for leaf `l` at each object index -/
-def leafObjs [DecidableEq σ] (l : Leaf σ) (invs : List (Inv σ)) : List (List (J σ)) :=
-  (List.range (maxCount invs)).map (fun i =>
-    invs.flatMap (fun inv =>
-      match (objsOf inv.2)[i]? with
-      | some o => collect l.kind ((o.get l.name).getD .null)
-      | none => []))
-
-/-- the columns below one nested path, given the calls of `collect_nested` for that path -/
-def flattenProps [DecidableEq σ] : NProps σ → List (Inv σ) → NEntries σ
+/-- the columns below one nested path whose objects are `objs`: per fast leaf the value list of
+every object index (`record_nested_*`), per child path the total object count, the parent index of
+every child object, and the child's own columns -/
+def flattenProps [DecidableEq σ] : NProps σ → List (PObj σ) → NEntries σ
   | .nil, _ => .nil
-  | .cons (.leaf l) t, invs =>
-    .cons l.name (if l.fast then .leaf l.kind (leafObjs l invs) else .skip) (flattenProps t invs)
-  | .cons (.object (.mk nm _ ps)) t, invs =>
+  | .cons (.leaf l) t, objs =>
+    .cons l.name
+      (if l.fast then
+        .leaf l.kind (objs.map (fun po => collect l.kind ((po.2.get l.name).getD .null)))
+       else .skip)
+      (flattenProps t objs)
+  | .cons (.object (.mk nm _ ps)) t, objs =>
     .cons nm
-      (.child (.mk (lastCount (childInvs nm invs)) (parentsOf (childInvs nm invs))
-        (flattenProps ps (childInvs nm invs))))
-      (flattenProps t invs)
+      (.child (.mk (childObjsFrom nm 0 objs).length ((childObjsFrom nm 0 objs).map (·.1))
+        (flattenProps ps (childObjsFrom nm 0 objs))))
+      (flattenProps t objs)
 
 /-- the fast-field columns of one document; the top level is the single "object" of an
-artificial root path (its count and parents are never read) -/
+artificial root path (its count and parents are never read; the code stores "no parent" for the
+objects of a top-level nested field, the model the root index 0 — never read either, because the
+top level evaluates with `object_idx = None`) -/
 def flatten [DecidableEq σ] (s : Schema σ) (kv : JO σ) : NEntries σ :=
-  flattenProps (rootProps s) [(none, .obj kv)]
+  flattenProps (rootProps s) [(none, kv)]
 
 /-! ## the code's evaluation over the columns -/
 
@@ -308,21 +281,5 @@ def passes [DecidableEq σ] (fold : σ → σ) (cols : NEntries σ) (f : Filter 
   eval fold f.size cols none f
 
 end Col
-
-/-! ## the fragment on which the columns are faithful -/
-
-/-- every nested path has at most one parent object that carries a (non-null) value: then
-`collect_nested` is called at most once per path -/
-def singleProps [DecidableEq σ] : NProps σ → List (JO σ) → Bool
-  | .nil, _ => true
-  | .cons (.leaf _) t, os => singleProps t os
-  | .cons (.object (.mk nm _ ps)) t, os =>
-    (match carriersFrom nm 0 os with
-     | [] => true
-     | [inv] => singleProps ps (objsOf inv.2)
-     | _ => false) && singleProps t os
-
-def singleCarrier [DecidableEq σ] (s : Schema σ) (kv : JO σ) : Bool :=
-  singleProps (rootProps s) [kv]
 
 end SL.Filter
